@@ -300,6 +300,6 @@ func init() {
 		Technique:   "bounded-exhaustive mutation enumeration on the implementation with invariant oracles (no panic, value xor error, read budget, work bound, error type)",
 		Rule:        "enumerate every edit in the stated families; invariant oracles per entry point; distinct_nontrivial counts distinct mutated inputs.",
 		Assumptions: commonAssume,
-		Runs:        []Run{{Pkg: hp + "c14", Variant: "scryptrec", NeedBins: []NeedBin{{Env: "VERIF_PLUGINSIM", Variant: "real", Pkg: "internal/zzverif/pluginsim"}}}},
+		Runs:        []Run{{Pkg: hp + "c14", Variant: "scryptrec", NeedBins: []NeedBin{{Env: "VERIF_PLUGINSIM", Variant: "real", Pkg: "internal/zzverif/pluginsim"}}}, {Pkg: "cmd/age", Variant: "mainhook+scryptrec", Optional: true, Env: []string{"VERIF_HARNESS=c14cli", "VERIF_PROPERTY=C14"}}},
 	}
 }
